@@ -83,7 +83,7 @@ impl WriteCircuitBreaker {
                 let now = current_timestamp();
                 let last_failure = self.last_failure_time.load(Ordering::Acquire);
 
-                if now - last_failure >= self.recovery_timeout.as_millis() as u64 {
+                if now.saturating_sub(last_failure) >= self.recovery_timeout.as_millis() as u64 {
                     // Transition to half-open to test recovery
                     self.transition_to_half_open();
                     true
@@ -154,7 +154,7 @@ impl WriteCircuitBreaker {
             CircuitState::Open => {
                 let now = current_timestamp();
                 let last_failure = self.last_failure_time.load(Ordering::Acquire);
-                let elapsed = Duration::from_millis(now - last_failure);
+                let elapsed = Duration::from_millis(now.saturating_sub(last_failure));
 
                 if elapsed >= self.recovery_timeout {
                     Some(Duration::ZERO) // Ready to recover now
